@@ -1147,6 +1147,15 @@ func checkUniteNoSplit(v *Verdict, sc *JoinSc, jv joinView, res *simrt.Result) {
 
 	loc := map[int]where{}
 
+	// "empty input slices produce nothing": an output slice without elements can only be
+	// an empty input slice passed on (or an empty flush)
+	for i, g := range jv.gots {
+		if len(g.Slice) == 0 {
+			v.fail("empty-input-produced-output", "output slice #%d is empty", i+1)
+			return
+		}
+	}
+
 	for i, g := range jv.gots {
 		for p, e := range g.Slice {
 			if _, dup := loc[e]; dup {
